@@ -732,6 +732,132 @@ def _split_conversion_handler(excname: str, hbody: List[ast.stmt]) -> Optional[L
 
 
 # ---------------------------------------------------------------------------------------------------------- functional idioms
+# ---------------------------------------------------------------------------------------------------------- broad handlers that narrow by isinstance
+def _fold_constants(stmts: List[ast.stmt]) -> List[ast.stmt]:
+    """Constant folding of a statement list after a sub-expression was replaced by True / False: boolean operators, `not`,
+    conditional expressions, `if` statements; a local bound (once, at the top level of the list) to a constant is put in
+    place of its later loads in the list."""
+    class F(ast.NodeTransformer):
+        def visit_UnaryOp(self, node):
+            self.generic_visit(node)
+            if isinstance(node.op, ast.Not) and isinstance(node.operand, ast.Constant) and isinstance(node.operand.value, bool):
+                return ast.copy_location(ast.Constant(value=not node.operand.value), node)
+            return node
+
+        def visit_BoolOp(self, node):
+            self.generic_visit(node)
+            is_and = isinstance(node.op, ast.And)
+            vals = []
+            for v in node.values:
+                if isinstance(v, ast.Constant) and isinstance(v.value, bool):
+                    if v.value is (not is_and):
+                        # True in an `or` / False in an `and` decides the result -- provided nothing before it has effects we drop
+                        vals.append(v)
+                        break
+                    continue            # neutral element
+                vals.append(v)
+            if not vals:
+                return ast.copy_location(ast.Constant(value=is_and), node)
+            if len(vals) == 1:
+                return vals[0]
+            if isinstance(vals[-1], ast.Constant) and isinstance(vals[-1].value, bool) and vals[-1].value is (not is_and) \
+                    and all(isinstance(v, (ast.Name, ast.Attribute, ast.Constant, ast.Compare)) for v in vals[:-1]):
+                return vals[-1]         # `x and False` with a side-effect free x
+            node.values = vals
+            return node
+
+        def visit_IfExp(self, node):
+            self.generic_visit(node)
+            if isinstance(node.test, ast.Constant) and isinstance(node.test.value, bool):
+                return node.body if node.test.value else node.orelse
+            return node
+
+    def fold_list(body: List[ast.stmt]) -> List[ast.stmt]:
+        out: List[ast.stmt] = []
+        consts: Dict[str, ast.Constant] = {}
+        for st in body:
+            if consts:
+                class S(ast.NodeTransformer):
+                    def visit_Name(self, n):
+                        if isinstance(n.ctx, ast.Load) and n.id in consts:
+                            return ast.copy_location(ast.Constant(value=consts[n.id].value), n)
+                        return n
+                stored_here = {n.id for n in ast.walk(st) if isinstance(n, ast.Name) and isinstance(n.ctx, ast.Store)}
+                if isinstance(st, ast.Assign) and len(st.targets) == 1 and isinstance(st.targets[0], ast.Name):
+                    st.value = S().visit(st.value)
+                elif not (stored_here & set(consts)):
+                    st = S().visit(st)
+                for nm in stored_here & set(consts):
+                    if not (isinstance(st, ast.Assign) and len(st.targets) == 1 and isinstance(st.targets[0], ast.Name)):
+                        consts.pop(nm, None)
+            st = F().visit(st)
+            for f_ in ("body", "orelse", "finalbody"):
+                sub = getattr(st, f_, None)
+                if isinstance(sub, list) and sub and isinstance(sub[0], ast.stmt) and not isinstance(st, (ast.FunctionDef, ast.AsyncFunctionDef, ast.ClassDef)):
+                    if isinstance(st, (ast.For, ast.While)) and consts:
+                        pass
+                    setattr(st, f_, fold_list(sub) or ([ast.Pass()] if f_ == "body" else []))
+            if isinstance(st, ast.If) and isinstance(st.test, ast.Constant) and isinstance(st.test.value, bool):
+                out.extend(st.body if st.test.value else st.orelse)
+                if any(_terminal_any(x) for x in (st.body if st.test.value else st.orelse)[-1:]):
+                    break
+                continue
+            if isinstance(st, ast.Assign) and len(st.targets) == 1 and isinstance(st.targets[0], ast.Name):
+                if isinstance(st.value, ast.Constant) and isinstance(st.value.value, bool):
+                    consts[st.targets[0].id] = st.value
+                else:
+                    consts.pop(st.targets[0].id, None)
+            out.append(st)
+            if _terminal_any(st):
+                break
+        return out
+    return fold_list(stmts)
+
+
+def _split_handlers_by_isinstance(fn: ast.FunctionDef) -> int:
+    """`except Exception as err:` whose body asks `isinstance(err, V)` is the pair `except V as err:` / `except Exception as err:`
+    with the question answered (True / False) and the answer folded through the body.  Only broad handlers (Exception,
+    BaseException, bare) and a single class V are rewritten; the new handler is put in front of the broad one."""
+    count = 0
+    for tr in [n for n in ast.walk(fn) if isinstance(n, ast.Try)]:
+        i = 0
+        while i < len(tr.handlers):
+            h = tr.handlers[i]
+            broad = h.type is None or (isinstance(h.type, ast.Name) and h.type.id in ("Exception", "BaseException"))
+            if not (broad and h.name):
+                i += 1
+                continue
+            if any(isinstance(n, ast.Name) and n.id == h.name and isinstance(n.ctx, ast.Store) for b in h.body for n in ast.walk(b)):
+                i += 1
+                continue
+            asks = [n for b in h.body for n in ast.walk(b) if isinstance(n, ast.Call) and isinstance(n.func, ast.Name) and n.func.id == "isinstance"
+                    and len(n.args) == 2 and isinstance(n.args[0], ast.Name) and n.args[0].id == h.name and isinstance(n.args[1], (ast.Name, ast.Attribute))]
+            classes = {ast.unparse(n.args[1]) for n in asks}
+            if len(classes) != 1 or classes <= {"Exception", "BaseException"}:
+                i += 1
+                continue
+            cls_expr = asks[0].args[1]
+
+            def answered(body, value):
+                class A(ast.NodeTransformer):
+                    def visit_Call(self, node):
+                        self.generic_visit(node)
+                        if isinstance(node.func, ast.Name) and node.func.id == "isinstance" and len(node.args) == 2 and isinstance(node.args[0], ast.Name) \
+                                and node.args[0].id == h.name and ast.unparse(node.args[1]) == ast.unparse(cls_expr):
+                            return ast.copy_location(ast.Constant(value=value), node)
+                        return node
+                return _fold_constants([A().visit(copy.deepcopy(b)) for b in body]) or [ast.Pass()]
+            narrow = ast.ExceptHandler(type=copy.deepcopy(cls_expr), name=h.name, body=answered(h.body, True))
+            rest = ast.ExceptHandler(type=h.type, name=h.name, body=answered(h.body, False))
+            for x in (narrow, rest):
+                ast.copy_location(x, h)
+                ast.fix_missing_locations(x)
+            tr.handlers[i:i + 1] = [narrow, rest]
+            i += 2
+            count += 1
+    return count
+
+
 def _callable_kind(e: ast.expr):
     """('partial', func, args, keywords) / ('methodcaller', name, args, keywords) for functools.partial(...) / operator.methodcaller(...)"""
     if isinstance(e, ast.Call):
@@ -1383,6 +1509,10 @@ def normalize_module_trees(modules: Dict[str, ast.Module]) -> List[str]:
                         if isinstance(f, ast.Name) and f.id in class_defs and f.id not in KNOWN_CLASSES:
                             return class_defs[f.id]
                         return None
+                    ns_ = _split_handlers_by_isinstance(fn)
+                    if ns_:
+                        any_change = True
+                        log.append("%s.%s: %d broad handler(s) split by isinstance" % (cls.name if cls else mn, fn.name, ns_))
                     if True:
                         nf = _rewrite_functional(fn)
                         if nf:
